@@ -311,6 +311,33 @@ class Result:
         self.distribution[key] = self.distribution.get(key, 0) + n
 
 
+# ---- shrinking -----------------------------------------------------------------------------------
+
+def ddmin(items, still_fails, budget=60):
+    """Delta debugging over a list: the smallest sub-list (by chunk removal) on which still_fails(sub) holds.
+    budget bounds the number of test executions."""
+    items = list(items)
+    n = 2
+    while len(items) >= 2 and budget > 0:
+        chunk = max(1, len(items) // n)
+        removed = False
+        for i in range(0, len(items), chunk):
+            cand = items[:i] + items[i + chunk:]
+            budget -= 1
+            if cand and still_fails(cand):
+                items = cand
+                n = max(n - 1, 2)
+                removed = True
+                break
+            if budget <= 0:
+                break
+        if not removed:
+            if chunk == 1:
+                break
+            n = min(len(items), n * 2)
+    return items
+
+
 # ---- known findings ---------------------------------------------------------------
 
 def load_known():
@@ -329,7 +356,7 @@ def match_known(pid, signature):
 
 # ---- verdict + evidence ---------------------------------------------------------------
 
-def finish(ctx, proof, audit, res, regen_errors, level='proof', extra_assumptions=()):
+def finish(ctx, proof, audit, res, regen_errors, level='proof', extra_assumptions=(), shrinker=None):
     pid = ctx.pid
     rdir = os.path.join(VERIF, 'replay', pid)
     os.makedirs(rdir, exist_ok=True)
@@ -349,8 +376,18 @@ def finish(ctx, proof, audit, res, regen_errors, level='proof', extra_assumption
             continue
         seen_sig.add(sig)
         path = os.path.join(rdir, 'violation-%s-%d.json' % (re.sub(r'[^A-Za-z0-9_.-]', '_', sig)[:60], ctx.seed))
+        case = f['case']
+        shrunk = False
+        if shrinker is not None:
+            try:
+                small = shrinker(ctx, f)
+                if small is not None:
+                    case, shrunk = small, True
+            except Exception:
+                pass
         json.dump({'property': pid, 'kind': 'oracle', 'signature': sig, 'what': f.get('what', ''),
-                   'case': f['case'], 'seed': ctx.seed, 'tier': ctx.tier}, open(path, 'w'), indent=1)
+                   'case': case, 'shrunk': shrunk, 'original_case': f['case'] if shrunk else None,
+                   'seed': ctx.seed, 'tier': ctx.tier}, open(path, 'w'), indent=1)
         violations.append((path, False))
     # 2. broken proof / audit / tie / correspondence without a failing input
     broken = []
